@@ -462,13 +462,64 @@ def run_prior(rig, case, exc):
     STATE["exc"] = None
 
 
+class DumpsGate:
+    """deterministic two-worker interleaving inside Daemon._sendExceptionResponse, without timing: the worker that
+    answers the main call is stopped at the moment it hands the exception instance to serializer.dumps (it has
+    already stored this call's traceback on the object); a second client, in its own thread (own thread-local call
+    context, as a second pool worker has), then makes a complete call that raises the SAME exception instance and
+    gets its whole error reply; only then does the first worker go on to serialise.  One thread runs at a time."""
+    def __init__(self, rig, case, canon):
+        import Pyro5.serializers
+        self.rig, self.case, self.canon = rig, case, canon
+        self.ser = Pyro5.serializers.serializers[case["ser"]]
+        self.fired = False
+        self.nested = None
+
+    def __enter__(self):
+        orig = self.ser.dumps
+
+        def gated(data):
+            if data is STATE["exc"] and not self.fired:
+                self.fired = True
+                import threading
+                t = threading.Thread(target=self.second_client, daemon=True)
+                t.start()
+                t.join(20)
+                if t.is_alive():
+                    self.nested = {"o": "did-not-finish"}
+            return orig(data)
+        self.ser.dumps = gated
+        return self
+
+    def __exit__(self, *a):
+        del self.ser.dumps
+
+    def second_client(self):
+        import Pyro5.api as api
+        p = api.Proxy(self.rig.uri_for(self.case))
+        p._pyroSerializer = self.case["ser"]
+        p._pyroTimeout = 1
+        o = {"before": 0, "values": []}
+        try:
+            do_call(p, self.case["kind"], 0, o)
+            self.nested = {"o": "returned"}
+        except BaseException as x:
+            self.nested = classify(x, True, self.canon)
+        finally:
+            if o.get("it") is not None:
+                o["it"].proxy = None
+            p._pyroRelease()
+
+
 def run_call(rig, case, exc, canon=None):
     """perform the call of case["kind"] with serializer case["ser"]; the server raises `exc`."""
     import Pyro5.api as api
+    import contextlib
     STATE["exc"] = exc
     STATE["depth"] = case.get("depth", 0)
     obs = {"before": 0, "values": []}
-    with Net(rig.daemon) as net:
+    gate = DumpsGate(rig, case, canon) if case.get("concurrent") else None
+    with Net(rig.daemon) as net, (gate or contextlib.nullcontext()):
         p = api.Proxy(rig.uri_for(case))
         p._pyroSerializer = case["ser"]
         p._pyroTimeout = 1
@@ -484,8 +535,9 @@ def run_call(rig, case, exc, canon=None):
                 obs["exc_is_pyroerror"] = any(qn(b) == "Pyro5.errors.PyroError" for b in type(x).__mro__)
                 obs["exc_str"] = str(x)[:20000]
             obs["client_conn"] = p._pyroConnection is not None
-            live = net.conns[max(net.conns)]
-            obs["server_open"] = not live.server_closed
+            obs["server_open"] = not c.server_closed
+            if gate is not None:
+                obs["nested"] = gate.nested
             try:
                 obs["next_ok"] = (p.ok(5) == 5)
             except BaseException as x:
